@@ -48,6 +48,34 @@ def fold_literal_switches(raw):
     return n
 
 
+def _no_def_after(raw, agg_stmt, local):
+    """no assignment to `local` is reachable once the statement agg_stmt has executed"""
+    blocks = raw["blocks"]
+    home = next((i for i, blk in enumerate(blocks) if any(st is agg_stmt for st in blk["stmts"])), None)
+    if home is None:
+        return False
+
+    def writes(blk, from_idx=0):
+        for st in blk["stmts"][from_idx:]:
+            if st["k"] in ("assign", "set_discr") and st["place"]["local"] == local:
+                return True
+        t = blk["term"]
+        return t["k"] == "call" and t.get("dest") is not None and t["dest"]["local"] == local
+    idx = next(i for i, st in enumerate(blocks[home]["stmts"]) if st is agg_stmt)
+    if writes(blocks[home], idx + 1):
+        return False
+    seen, work = set(), list(_all_succs(blocks[home]["term"]))
+    while work:
+        x = work.pop()
+        if x in seen:
+            continue
+        seen.add(x)
+        if writes(blocks[x]):
+            return False
+        work.extend(_all_succs(blocks[x]["term"]))
+    return True
+
+
 def scalarize_plain_aggregates(raw, types):
     """A tuple or a struct of plain scalars (bool / integers, e.g. a private `ShrinkPlan { drop_leftovers: bool, min_size: usize }`) that is
     built once in this body, only moved around as a whole and read field by field, is its fields: every read `p.i` becomes a read of the
@@ -97,8 +125,11 @@ def scalarize_plain_aggregates(raw, types):
                 ok = False
                 break
             od = defs.get(o["place"]["local"], [])
-            if o["place"]["local"] <= nargs or len(od) != 1:
+            if o["place"]["local"] <= nargs or not od:
                 ok = False
+                break
+            if len(od) != 1 and not _no_def_after(raw, ds[0], o["place"]["local"]):
+                ok = False          # the stored local may be given another value after the aggregate was built
                 break
         if ok:
             cands[l] = rv
